@@ -77,11 +77,13 @@ def cases(tier, seed):
             # a bedGraph-2D FILE lists every pixel once (cooler load refuses a pixel repeated within a chunk): anchors are
             # bin starts and no two records denote the same pixel after mirroring
             starts = {}
-            for cc, st, _ in table:
+            clen = {}
+            for cc, st, en in table:
                 starts.setdefault(cc, []).append(st)
+                clen[cc] = en
             seen, uniq = set(), []
             for r in recs:
-                if not bad and r[0] >= 0 and r[2] >= 0:
+                if r[0] >= 0 and r[2] >= 0 and 0 <= r[1] < clen[r[0]] and 0 <= r[3] < clen[r[2]]:
                     r = [r[0], max(x for x in starts[r[0]] if x <= r[1]), r[2], max(x for x in starts[r[2]] if x <= r[3]), r[4]]
                 key = tuple(sorted([(r[0], r[1]), (r[2], r[3])])) if tril != "none" else (r[0], r[1], r[2], r[3])
                 if key not in seen:
